@@ -1270,7 +1270,80 @@ fn gen_rcl(rng: &mut SmallRng, st: &str, small: bool) -> (usize, Vec<String>, bo
     (k, v, sorted)
 }
 
+/// Two lists of the same shape (same k, same string lengths, different contents) are
+/// loaded one after the other by ε-copy from the *same* buffer, with queries on the
+/// first in between: the second must answer like its own original (nothing keyed by
+/// the address of the data may survive from the first).
+fn rcl_reload_same_buffer(c: &mut Case, small: bool) {
+    let n = if small { 20 } else { c.rng().random_range(2..400usize) };
+    let k = [1usize, 2, 3, 4, 8, 16][c.rng().random_range(0..6)];
+    let a: Vec<String> = (0..n).map(|i| format!("{}{}", ["alpha", "be", "gam", ""][i % 4], "xy".repeat(c.rng().random_range(0..4usize)) + &format!("{:03}", i % 50))).collect();
+    // same lengths, different letters
+    let b: Vec<String> = a.iter().map(|s| s.chars().map(|ch| if ch.is_ascii_lowercase() { ch.to_ascii_uppercase() } else { ch }).collect()).collect();
+    let build = |v: &[String]| {
+        let mut bl = RearCodedListBuilder::new(k);
+        for s in v {
+            bl.push(s);
+        }
+        bl.build()
+    };
+    let (Ok(la), Ok(lb)) = (catch(|| build(&a)), catch(|| build(&b))) else { abandoned(); return };
+    let (ba, bb) = (ser_bytes(&la), ser_bytes(&lb));
+    c.describe(|| format!("k={} n={} first list {:?}...", k, n, &a[..n.min(8)]));
+    if ba.len() != bb.len() {
+        return; // the two serializations must occupy the same bytes
+    }
+    let buf = ABuf::new(&ba, &[]);
+    let order: Vec<usize> = {
+        let mut v: Vec<usize> = (0..n).collect();
+        if c.rng().random_bool(0.5) {
+            v.reverse();
+        }
+        v
+    };
+    let r = catch(|| {
+        let mut diffs: Vec<String> = Vec::new();
+        {
+            let va = eps_like(&la, buf.bytes());
+            for &i in order.iter().take(1 + n / 3) {
+                if va.get(i) != a[i] {
+                    diffs.push(format!("first list: get({}) = {:?}, original {:?}", i, va.get(i), a[i]));
+                }
+            }
+        }
+        // overwrite the same bytes with the second list and load it at the same address
+        unsafe { std::ptr::copy_nonoverlapping(bb.as_ptr(), buf.p, bb.len()) };
+        let vb = eps_like(&lb, buf.bytes());
+        for &i in &order {
+            let g = vb.get(i);
+            if g != b[i] {
+                diffs.push(format!("second list loaded in the same buffer: get({}) = {:?}, its original gives {:?}", i, g, b[i]));
+                if diffs.len() > 5 {
+                    break;
+                }
+            }
+        }
+        let all: Vec<String> = vb.iter().collect();
+        if all != b {
+            diffs.push("second list loaded in the same buffer: iter() differs from its original".to_string());
+        }
+        diffs
+    });
+    c.tick(2 * n as u64);
+    match r {
+        Ok(d) if d.is_empty() => {}
+        Ok(d) => c.fail("deserialize_eps_reload", "mismatch", "a list loaded where another list had been loaded and queried answers differently from its original", &d.join("; ")),
+        Err(m) => c.fail("deserialize_eps_reload", "panic", &m, "loading or querying panicked"),
+    }
+    c.nontrivial();
+}
+
 fn rcl_family(ctx: &mut Ctx) {
+    for rep in 0..ctx.scale(2, 40, 200) {
+        let small = ctx.small;
+        let _ = rep;
+        ctx.case("RearCodedList", "reload-in-the-same-buffer", "deserialize_eps_reload", |c| rcl_reload_same_buffer(c, small));
+    }
     for &st in if ctx.small { RCL_STRATA_SMALL } else { RCL_STRATA } {
         for &mode in modes(ctx) {
             let small = ctx.small;
